@@ -101,6 +101,11 @@ fn main() {
         }
         return;
     }
+    if args[0] == "--c07-configs" {
+        // one fresh process: the wire codecs used under two configurations, in the given order
+        checks::c07::configs_in_fresh_process(&args[1]);
+        return;
+    }
     if args[0] == "--probe-handler-panic" {
         probe::handler_panic();
         return;
